@@ -252,7 +252,10 @@ func C12_Literals() {
 	in := freeInput(rt.Param("N", 3))
 	c := rt.Choose("start", len(in)+1)
 	var p parsley.Parser
-	switch rt.Choose("terminal", 8) {
+	switch rt.Choose("terminal", 9) {
+	case 8:
+		// a capturing group selected: another branch of terminal.Regexp
+		p = terminal.Regexp("r", "ID", "identifier", `([a-z]+)[0-9]*`, 1)
 	case 0:
 		p = terminal.Integer("i")
 	case 1:
